@@ -83,6 +83,14 @@ def families(tier):
               dict(bus=b1, pat='C', name='hc', prog=[('pause',)]), dict(bus=b2, pat='G', name='hg', prog=[('pause',)])]
         out.append(dict(prop='C06', family='c06.mutex.parallel_siblings', id=f'c06/sib-twice-{b1}{b2}-o{"".join(o)}', cfg=cfg, params=dict(first_b='main', par_a=True, par_b=False),
                         scn=dict(buses={'A': dict(parallel=True), 'B': {}}, order=o, handlers=hs, main=[('disp', 'B', 'X', 'await'), ('disp', 'A', 'P', 'ff')], actors=[], forwards=[], settle=3.0)))
+    # a sibling gives up its await (caller-side wait_for) while it is still queued for its turn, then awaits another child
+    for b1, b2, o in itertools.product('AB', 'AB', (['A', 'B'], ['B', 'A'])):
+        hs = [dict(bus='A', pat='P', name='h1', prog=[('disp', b1, 'C', 'await'), ('pause',)]),
+              dict(bus='A', pat='P', name='h2', prog=[('pause',), ('await_tmo', b2, 'G', 0.5), ('disp', b2, 'G2', 'await')]),
+              dict(bus='A', pat='P', name='h3', prog=[('pause',), ('pause',), ('disp', b2, 'Q', 'await')]),
+              dict(bus=b1, pat='C', name='hc', prog=[('pause',), ('pause',)]), dict(bus=b2, pat='G', name='hg', prog=[('pause',)]), dict(bus=b2, pat='Q', name='hq', prog=[('pause',)])]
+        out.append(dict(prop='C06', family='c06.mutex.parallel_siblings', id=f'c06/sib-giveup-{b1}{b2}-o{"".join(o)}', cfg=dict(cfg, window=0.7, max_targets=2), params=dict(first_b='main', par_a=True, par_b=False),
+                        scn=dict(buses={'A': dict(parallel=True), 'B': {}}, order=o, handlers=hs, main=[('disp', 'B', 'X', 'await'), ('disp', 'A', 'P', 'ff')], actors=[], forwards=[], settle=3.0)))
     # the same one level down: a single handler awaits a child whose TWO handlers (parallel bus) each await a grandchild
     for gb1, gb2, o in itertools.product('AB', 'AB', (['A', 'B'], ['B', 'A'])):
         hs = [dict(bus='A', pat='P', name='hp', prog=[('disp', 'A', 'C', 'await'), ('pause',)]),
